@@ -16,6 +16,7 @@ import (
 	"sync"
 	"time"
 
+	"github.com/ansible/receptor/pkg/verifhook"
 	"github.com/quic-go/quic-go"
 	"github.com/quic-go/quic-go/logging"
 	"github.com/quic-go/quic-go/qlog"
@@ -91,6 +92,7 @@ func (s *Netceptor) listen(ctx context.Context, service string, tlscfg *tls.Conf
 	pc.StartUnreachable()
 	s.Logger.Debug("%s added service %s to listener registry", s.nodeID, service)
 	s.listenerRegistry[service] = pc
+	verifhook.Emit(s.nodeID, "pc_open", "svc", service, "adv", advertise)
 	cfg := &quic.Config{
 		Tracer:                  s.tracer,
 		HandshakeIdleTimeout:    15 * time.Second,
